@@ -606,4 +606,16 @@ theorem C05_wiring2 :
     Sso.Generated.skel_sso_isProviderUnavailable =
       ["return"] := by decide
 
+/-- Tie (T1): the decoder tags of sso-proxy's configuration structs (`internal/proxy/configuration.go`) — the names under which the environment and the files reach each setting this
+property depends on (TTLs, cookie flags, client credentials, root domains, allow rules …). A tag that changes re-routes or drops a
+setting without any code noticing. -/
+theorem C05_tags_proxyConfigTags : Sso.Generated.proxyConfigTags =
+    ["Configuration.ServerConfig mapstructure:\"server\"", "Configuration.ProviderConfig mapstructure:\"provider\"", "Configuration.ClientConfig mapstructure:\"client\"", "Configuration.SessionConfig mapstructure:\"session\"", "Configuration.UpstreamConfigs mapstructure:\"upstream\"", "Configuration.MetricsConfig mapstructure:\"metrics\"", "Configuration.LoggingConfig mapstructure:\"logging\"", "Configuration.RequestSignerConfig mapstructure:\"requestsigner\"", "ProviderConfig.ProviderType mapstructure:\"type\"", "ProviderConfig.Scope mapstructure:\"scope\"", "ProviderConfig.ProviderURLConfig mapstructure:\"url\"", "ProviderURLConfig.External mapstructure:\"external\"", "ProviderURLConfig.Internal mapstructure:\"internal\"", "SessionConfig.CookieConfig mapstructure:\"cookie\"", "SessionConfig.TTLConfig mapstructure:\"ttl\"", "CookieConfig.Name mapstructure:\"name\"", "CookieConfig.Secret mapstructure:\"secret\"", "CookieConfig.Expire mapstructure:\"expire\"", "CookieConfig.Domain mapstructure:\"domain\"", "CookieConfig.Secure mapstructure:\"secure\"", "CookieConfig.HTTPOnly mapstructure:\"httponly\"", "TTLConfig.Lifetime mapstructure:\"lifetime\"", "TTLConfig.Valid mapstructure:\"valid\"", "TTLConfig.GracePeriod mapstructre:\"grace_period\"", "ClientConfig.ID mapstructure:\"id\"", "ClientConfig.Secret mapstructure:\"secret\"", "ServerConfig.Port mapstructure:\"port\"", "ServerConfig.TimeoutConfig mapstructure:\"timeout\"", "TimeoutConfig.Write mapstructure:\"write\"", "TimeoutConfig.Read mapstructure:\"read\"", "TimeoutConfig.Shutdown mapstructure:\"shutdown\"", "MetricsConfig.StatsdConfig mapstructure:\"statsd\"", "StatsdConfig.Port mapstructure:\"port\"", "StatsdConfig.Host mapstructure:\"host\"", "LoggingConfig.Enable mapstructure:\"enable\"", "UpstreamConfigs.DefaultConfig mapstructure:\"default\"", "UpstreamConfigs.ConfigsFile mapstructure:\"configfile\"", "UpstreamConfigs.testTemplateVars ", "UpstreamConfigs.upstreamConfigs ", "UpstreamConfigs.Cluster mapstructure:\"cluster\"", "UpstreamConfigs.Scheme mapstructure:\"scheme\"", "DefaultConfig.EmailConfig mapstructure:\"email\"", "DefaultConfig.AllowedGroups mapstructure:\"groups\"", "DefaultConfig.ProviderSlug mapstructure:\"provider\"", "DefaultConfig.Timeout mapstructure:\"timeout\"", "DefaultConfig.ResetDeadline mapstructure:\"resetdeadline\"", "EmailConfig.AllowedDomains mapstructure:\"domains\"", "EmailConfig.AllowedAddresses mapstructure:\"addresses\"", "RequestSignerConfig.Key mapstructure:\"key\""] := by decide
+
+/-- Tie (T1), third wave: the constructors and option functions that hand configured values to the components this property
+speaks about (proxy_newProvider). -/
+theorem C05_wiring3 :
+    Sso.Generated.skel_proxy_newProvider =
+      ["call:Parse", "if{", "return", "}", "if{", "call:Parse", "if{", "return", "}", "}", "call:New", "call:NewSingleFlightProvider", "return"] := by decide
+
 end Sso.Proxy
